@@ -17,6 +17,12 @@ CLAIMED = {
          "Documented preconditions (setters before the head, one writeHeaders, CR/LF-free values); QJsonDocument::toJson is an oracle; a history that never writes sends nothing."),
  "C04": ("Theorems: reject_response (the segment completing a rejected head yields exactly [400 head; page; close], no headersParsed), response_shape (Content-Length = page length), reject_absorbing (no byte and no notification ever after, for all later schedules), construct_defers (pre-buffered bytes are handled by the same handler one turn later), with C02's segmentation independence. Tie: Socket and the real ServerPrivate::process wiring over SimTcp on ~12k (head x segmentation x creation point x trailing) cases.",
          "QUrl::isValid is an oracle."),
+ "C05": ("Theorems for EVERY handler tree, path and regexp engine: route_refines_outcome (the router's calls are the middleware consultations followed by the single terminal action named by the specification function), one_terminal, order_at_node + first_redirect/first_sub characterisations (first matching redirect, else first matching sub-handler with the prefix removed, else own processing), dispatch (leading slash stripped, 500 without root), redirect_location_clean (Location never contains CR/LF/SP whatever the captures). Tie: real ServerPrivate::process wiring + instrumented Handler trees over SimTcp vs. model on random trees/paths with QRegExp tabulated.",
+         "QRegExp is an oracle (tabulated by calling it directly); sub-handler patterns start-anchored."),
+ "C06": ("Theorems for EVERY tree/path/regexp engine/accept assignment: gate (every consulted middleware but the last accepted; outcome is a refusal iff the last consulted refused and then contains nothing else), consulted_in_attachment_order (= all middleware of the handler and its ancestors on the route, in order, up to the first refusal), route_refines_outcome. Tie: as C05 plus refusing and request-dependent middleware and several connections through one tree.",
+         "QRegExp is an oracle; the refusing middleware of the harness answers 403."),
+ "C14": ("Theorems: copies_slice (every content, block size >= 1, forward/open range: exactly the requested bytes clipped at the end, one completion), block_copy invariant, stop_halts (after stop(): for every later schedule no byte and no completion), start_failure / block_failure (error then the single completion), sequential_copy (every arrival partition: concatenation, completion once). Tie: QIODeviceCopier over scripted devices: exhaustive small contents x block sizes x ranges, stop at every turn, failing primitives, all arrival partitions.",
+         "Scripted QIODevice subclasses stand in for files/sockets; a range on a sequential source is outside the documented API."),
  "C16": ("Theorems over a literal model of range.cpp for all integers: valid_known, invalid_shape, valid_iff, string_iff, ctor_wf, copy_resize_preserve, no 64-bit overflow below 2^62, model meets the boolean statement. Tie: exhaustive small triples, all short strings, boundary-biased values against the real Range class.",
          "QRegExp/QString::toInt/trimmed modelled on ASCII."),
  "C18": ("Theorem progress_counts_body_only: after a head of H bytes, for EVERY list of acknowledgements interleaved with body writes, sum of bytesWritten notifications = max 0 (acked - H). Tie: all compositions / boundary acks (H-1, H, H+1) / random interleavings over SimTcp::ack.",
